@@ -85,13 +85,17 @@ func expectedCells(op *Op) []string {
 			}
 		}
 	case "del":
+		dts := op.Nonce
+		if op.NoTS {
+			dts = latest
+		}
 		for f, qs := range op.Vals {
 			if len(qs) == 0 {
 				t := byte(hb.TypeDeleteFamily)
 				if op.DelOne {
 					t = hb.TypeDeleteFamilyVersion
 				}
-				out = append(out, cellKey(hb.Cell{Fam: []byte(f), Qual: nil, TS: op.Nonce, Type: t}))
+				out = append(out, cellKey(hb.Cell{Fam: []byte(f), Qual: nil, TS: dts, Type: t}))
 				continue
 			}
 			for q := range qs {
@@ -99,7 +103,7 @@ func expectedCells(op *Op) []string {
 				if op.DelOne {
 					t = hb.TypeDelete
 				}
-				out = append(out, cellKey(hb.Cell{Fam: []byte(f), Qual: []byte(q), TS: op.Nonce, Type: t}))
+				out = append(out, cellKey(hb.Cell{Fam: []byte(f), Qual: []byte(q), TS: dts, Type: t}))
 			}
 		}
 	}
@@ -203,6 +207,10 @@ func (w *World) WireCheck(e *hb.Exec, ops map[uint64]*Op) []string {
 			f("durability %v, want %d", m.GetDurability(), op.Dur)
 		}
 		switch {
+		case op.Kind == "del" && op.NoTS:
+			if m.Timestamp != nil {
+				f("delete timestamp %d set, caller set none", m.GetTimestamp())
+			}
 		case op.Kind == "del":
 			if m.Timestamp == nil || m.GetTimestamp() != op.Nonce {
 				f("delete timestamp %v, want %d", m.Timestamp, op.Nonce)
